@@ -6,7 +6,7 @@
    of this property, not by a theorem. *)
 From Coq Require Import String ZArith List Bool.
 From XV Require Import Base.Label Base.LSet Base.ODict Base.Attr Base.Outcome Model.Hypergraph
-  Model.HgCheck Model.Copy Proofs.HgViews Proofs.HgInv Proofs.CopyProofs.
+  Model.HgCheck Model.Copy Proofs.HgViews Proofs.HgInv Proofs.CopyProofs Proofs.DerivedProofs.
 Import ListNotations.
 Open Scope Z_scope.
 
@@ -26,6 +26,25 @@ Proof.
   intros route s I. split; [apply Proofs.HgStep.auto_id_fresh; exact I|apply hg_dup_fresh; exact I].
 Qed.
 Print Assumptions C07_both_fresh_ids.
+
+(* copy() (route = true) and Hypergraph(H) (route = false) succeed and return a network with the
+   same nodes and edges in the same order, the same members (as sets), the same attribute records
+   (aupdate [] (aupdate [] d) is the dict d rebuilt key by key: equal to d for a dict, whose keys
+   are distinct), the same memberships and network attributes; copy() also has the same next id.
+   NoNone (None is never a node or edge id) holds in every state the library can reach, because
+   IDDict refuses the key None; it is a hypothesis here, not yet an invariant proved for all ops. *)
+Theorem C07_copy_equal : forall route s, Inv s -> NoNone s ->
+  let r := hg_dup route s in
+  let t := st_of r in
+  Proofs.HgErrors.out_of r = Ok /\ Inv t /\
+  nkeys t = nkeys s /\ ekeys t = ekeys s /\
+  (forall e, In e (ekeys s) -> (exists M, get e (h_edge t) = Some M /\ seteq M (mems s e)) /\
+                                get e (h_eattr t) = Some (aupdate [] (aupdate [] (geta e (h_eattr s))))) /\
+  (forall n, In n (nkeys s) -> get n (h_nattr t) = Some (aupdate [] (aupdate [] (geta n (h_nattr s)))) /\
+                               seteq (mships t n) (mships s n)) /\
+  h_net t = h_net s /\ (route = true -> h_uid t = h_uid s).
+Proof. exact hg_dup_equal. Qed.
+Print Assumptions C07_copy_equal.
 
 Example C07_nonvacuous :
   let s := run [OAddEdge [LInt 1; LInt 2] (Some (LInt 5)) [("w"%string, AInt 1)];
